@@ -210,6 +210,18 @@ let () =
            | _ -> failwith ("bad M line " ^ kind)) in
         if enc_string mw = ow && enc_string msw = osw then Printf.printf "OK %s\n" id
         else Printf.printf "MISMATCH %s leaf-encode model_w=%s model_sw=%s\n" id (enc_string mw) (enc_string msw)
+      | ["P"; id; hex; o1; o2] ->
+        let bs = bytes_of_hex hex in
+        let nm = if L.length bs >= 8 then L.filteri (fun i _ -> i >= 4 && i < 8) bs else [] in
+        let flds l = S.concat "," (L.map dec_of_n l) in
+        let m1 = match progbox_r bs with
+          | Ok (v, n) -> Printf.sprintf "ok:%s:S%s:%d" (flds v) (dec_of_n (progbox_size nm v)) (int_of_n n)
+          | r -> cls_of r in
+        let m2 = match progbox_sr bs with
+          | Ok ((v, p), e) -> Printf.sprintf "ok:%s:S%s:%d:%s" (flds v) (dec_of_n (progbox_size nm v)) (int_of_z p) (b01 e)
+          | r -> cls_of r in
+        if m1 = o1 && m2 = o2 then Printf.printf "OK %s\n" id
+        else Printf.printf "MISMATCH %s prog model_r=%s model_sr=%s\n" id m1 m2
       | ["L"; id; hex; o1; o2] ->
         let bs = bytes_of_hex hex in
         (* the byte-level loops deliver the box sequence; the one assembly rule that can reject a sequence of these leaves
